@@ -92,7 +92,48 @@ var clock int64
 func tick() int64 { return atomic.AddInt64(&clock, 1) }
 
 func oneRound(rng *rand.Rand, pattern string, idx int) (rep roundReport) {
+	defer func() {
+		if p := recover(); p != nil {
+			rep.Problems = append(rep.Problems, "panic|"+strings.SplitN(fmt.Sprint(p), "\n", 2)[0]+" ## "+fmt.Sprintf("panic: %v", p))
+		}
+	}()
+	sc := buildScenario(rng, pattern, idx, &rep)
+	if sc == nil {
+		return
+	}
+	defer sc.drop()
+	if !sc.issueFree(&rep) {
+		return
+	}
+	sc.judge(&rep, true)
+	return
+}
+
+// scenario is one prepared situation: a node at the base block and the requests built on it.
+type scenario struct {
+	t         *gen.Tree
+	s         *hist.SUT
+	reqs      []*request
+	baseModel *refmodel.State
+	height    int64
+	pattern   string
+}
+
+func (sc *scenario) drop() {
+	if sc == nil {
+		return
+	}
+	if sc.s != nil {
+		sc.s.N.Drop()
+	}
+	sc.t.Drop()
+}
+
+// buildScenario prepares the node and the requests of one round (nil when the generator produced
+// nothing to run; problems of the preparation go to rep).
+func buildScenario(rng *rand.Rand, pattern string, idx int, rep *roundReport) (sc *scenario) {
 	rep.Pattern, rep.Round = pattern, idx
+	built := false
 	problem := func(sig, f string, a ...interface{}) {
 		rep.Problems = append(rep.Problems, sig+" ## "+fmt.Sprintf(f, a...))
 	}
@@ -109,7 +150,11 @@ func oneRound(rng *rand.Rand, pattern string, idx int) (rep roundReport) {
 		problem("harness|setup", "%v", err)
 		return
 	}
-	defer t.Drop()
+	defer func() {
+		if !built {
+			t.Drop()
+		}
+	}()
 	nb := 1 + rng.Intn(2)
 	for i := 0; i < nb; i++ {
 		if _, err := t.AddBlock(rng, len(t.Blocks)-1, 2+rng.Intn(3), nil); err != nil {
@@ -178,7 +223,11 @@ func oneRound(rng *rand.Rand, pattern string, idx int) (rep roundReport) {
 		problem("harness|setup", "%v", err)
 		return
 	}
-	defer func() { s.N.Drop() }()
+	defer func() {
+		if !built {
+			s.N.Drop()
+		}
+	}()
 	for i := 1; i <= base; i++ {
 		s.Confirm(i)
 	}
@@ -303,7 +352,14 @@ func oneRound(rng *rand.Rand, pattern string, idx int) (rep roundReport) {
 		return
 	}
 	height := s.N.LedgerHeight()
+	built = true
+	return &scenario{t: t, s: s, reqs: reqs, baseModel: baseModel, height: height, pattern: pattern}
+}
 
+// issueFree lets every request run in a goroutine of its own, all released at once (false: the
+// round did not finish within the watchdog period).
+func (sc *scenario) issueFree(rep *roundReport) bool {
+	reqs := sc.reqs
 	// ---- issue them concurrently ----
 	var wg sync.WaitGroup
 	start := make(chan struct{})
@@ -315,50 +371,7 @@ func oneRound(rng *rand.Rand, pattern string, idx int) (rep roundReport) {
 		go func(i int, rq *request) {
 			defer wg.Done()
 			<-start
-			rq.Call = tick()
-			note(fmt.Sprintf("c%d", i))
-			switch rq.Kind {
-			case "dotx":
-				err := s.N.State.DoTx(sn.CloneTx(rq.Tx))
-				rq.Admitted = err == nil
-				if err != nil {
-					rq.Err = err.Error()
-					rq.ErrClass = sn.ErrClass(err)
-				}
-			case "select":
-				ins, _, _, err := s.N.State.SelectUtxos(rq.Addr, big.NewInt(rq.Amount), true, false)
-				rq.Admitted = err == nil
-				if err != nil {
-					rq.Err = err.Error()
-				}
-				for _, in := range ins {
-					rq.Selected = append(rq.Selected, utxo.GenUtxoKey(in.FromAddr, in.RefTxid, in.RefOffset))
-				}
-			case "play":
-				var err error
-				if rq.ViaWalk && rq.Block2 > 0 {
-					err = s.N.WalkBackToBack(t.Blocks[rq.Block].ID, t.Blocks[rq.Block2].ID)
-				} else if rq.ViaWalk {
-					// Walk rolls the pool back, applies the block and re-admits the pool in a goroutine of
-					// its own, which then runs next to the client submissions; Node.Walk returns when
-					// that recovery has finished
-					err = s.N.Walk(t.Blocks[rq.Block].ID, false)
-				} else {
-					err = s.N.State.Play(t.Blocks[rq.Block].ID)
-				}
-				rq.Admitted = err == nil
-				if err != nil {
-					rq.Err = err.Error()
-				}
-			case "balance":
-				for k := 0; k < 3; k++ {
-					s.N.State.GetBalance(rq.Addr)
-					s.N.State.GetTotal()
-				}
-				rq.Admitted = true
-			}
-			note(fmt.Sprintf("r%d", i))
-			rq.Ret = tick()
+			sc.perform(i, rq, note)
 		}(i, rq)
 	}
 	done := make(chan struct{})
@@ -368,7 +381,7 @@ func oneRound(rng *rand.Rand, pattern string, idx int) (rep roundReport) {
 	case <-done:
 	case <-time.After(90 * time.Second):
 		rep.Hung = true
-		return
+		return false
 	}
 	rep.Events = strings.Join(events, "")
 	for i, rq := range reqs {
@@ -381,7 +394,66 @@ func oneRound(rng *rand.Rand, pattern string, idx int) (rep roundReport) {
 		}
 		rep.Results = append(rep.Results, fmt.Sprintf("%d:%s:%s=%s", i, rq.Kind, rq.Label, res))
 	}
+	return true
+}
 
+// perform carries out one request against the node and records call / return ticks and result.
+func (sc *scenario) perform(i int, rq *request, note func(string)) {
+	s, t := sc.s, sc.t
+	rq.Call = tick()
+	note(fmt.Sprintf("c%d", i))
+	switch rq.Kind {
+	case "dotx":
+		err := s.N.State.DoTx(sn.CloneTx(rq.Tx))
+		rq.Admitted = err == nil
+		if err != nil {
+			rq.Err = err.Error()
+			rq.ErrClass = sn.ErrClass(err)
+		}
+	case "select":
+		ins, _, _, err := s.N.State.SelectUtxos(rq.Addr, big.NewInt(rq.Amount), true, false)
+		rq.Admitted = err == nil
+		if err != nil {
+			rq.Err = err.Error()
+		}
+		for _, in := range ins {
+			rq.Selected = append(rq.Selected, utxo.GenUtxoKey(in.FromAddr, in.RefTxid, in.RefOffset))
+		}
+	case "play":
+		var err error
+		if rq.ViaWalk && rq.Block2 > 0 {
+			err = s.N.WalkBackToBack(t.Blocks[rq.Block].ID, t.Blocks[rq.Block2].ID)
+		} else if rq.ViaWalk {
+			// Walk rolls the pool back, applies the block and re-admits the pool in a goroutine of
+			// its own, which then runs next to the client submissions; Node.Walk returns when
+			// that recovery has finished
+			err = s.N.Walk(t.Blocks[rq.Block].ID, false)
+		} else {
+			err = s.N.State.Play(t.Blocks[rq.Block].ID)
+		}
+		rq.Admitted = err == nil
+		if err != nil {
+			rq.Err = err.Error()
+		}
+	case "balance":
+		for k := 0; k < 3; k++ {
+			s.N.State.GetBalance(rq.Addr)
+			s.N.State.GetTotal()
+		}
+		rq.Admitted = true
+	}
+	note(fmt.Sprintf("r%d", i))
+	rq.Ret = tick()
+}
+
+// judge runs the oracles over the results of a finished round; full adds the history-free
+// replay and the reopened twin to the statement-level model at quiescence.
+func (sc *scenario) judge(rep *roundReport, full bool) {
+	s, t, reqs, pattern, baseModel, height := sc.s, sc.t, sc.reqs, sc.pattern, sc.baseModel, sc.height
+	_ = t
+	problem := func(sig, f string, a ...interface{}) {
+		rep.Problems = append(rep.Problems, sig+" ## "+fmt.Sprintf(f, a...))
+	}
 	// ---- oracles ----
 	// (a) contention refusals must overlap a conflicting call
 	conflicts := func(a, b *pb.Transaction) bool {
@@ -453,7 +525,11 @@ func oneRound(rng *rand.Rand, pattern string, idx int) (rep roundReport) {
 	hist.CanonSelect = false
 	hist.TwinSelect = false // temporary selection locks are allowed to outlive the round
 	op := hist.Op{Kind: "concurrent-" + pattern}
-	for _, a := range []hist.Auditor{hist.ModelAuditor, hist.CanonAuditor, hist.TwinAuditor} {
+	auditors := []hist.Auditor{hist.ModelAuditor}
+	if full {
+		auditors = append(auditors, hist.CanonAuditor, hist.TwinAuditor)
+	}
+	for _, a := range auditors {
 		if ps := a(s, op); len(ps) > 0 {
 			for _, p := range ps {
 				problem(p.Sig, "%s", p.Detail)
